@@ -18,7 +18,7 @@ LEVEL_TEXT = ("close() is issued at enumerated event-loop steps of nine session 
               "faithfulness of the status trace; a raising status callback must be indistinguishable from a plain one. Thorough "
               "enumerates every step of every shape; quick a stride plus Hypothesis-chosen steps.")
 TECHNIQUE = "schedule enumeration (close() at every event-loop step of each session shape) with invariants checked at every loop step; metamorphic comparison of status-callback behaviours"
-RULE = ("shape x client x close step k x status callback {plain, raise, slow}, plus link events (data / EOF / reset / Sorry,Limited) injected 0..4 loop steps after close() is entered; oracle: from the step close() is entered state == CLOSED at "
+RULE = ("shape x client x close step k x status callback {plain, raise, slow}, plus link events (data / EOF / reset / Sorry,Limited) injected 0..4 loop steps after close() is entered, plus close() called 0.1 virtual s before each of the first four pending loop timers expires (reconnect back-off, busy-gateway pause of 30 s, retry) in six shapes; oracle: from the step close() is entered state == CLOSED at "
         "every loop step and no connection attempt is initiated; after close() returns no receive callback, every link closed, no client "
         "task pending after settling; status trace has no two equal consecutive entries, contains the polled state sequence as a "
         "subsequence and ends in the final state; raising callback run == plain run on attempts/bytes/deliveries/state polls; "
@@ -30,6 +30,8 @@ ASSUMPTIONS = [
 
 SHAPES = ("never_connected", "connect_in_flight", "retry_wait", "connected_idle", "mid_packet", "in_callback", "during_send", "after_fault",
           "reset_and_send")
+# shapes only used by the close-before-timer pass (a client-internal timer is pending: back-off, busy-gateway pause, connect retry)
+TIMER_SHAPES = ("retry_wait", "after_fault", "busy_backoff", "connect_in_flight", "connected_idle", "reset_and_send")
 CLIENT_TASKS = ("connect", "_receive_loop", "_process_queue", "send", "_seed_network_map", "close", "_receive_impl")
 
 
@@ -54,7 +56,7 @@ def run_case(kind, shape, k, mode, post=("connect", "send", "data", "eof"), duri
         conn = None
         if shape != "never_connected":
             conn = asyncio.ensure_future(c.connect())
-        if shape in ("connected_idle", "mid_packet", "in_callback", "during_send", "after_fault", "reset_and_send"):
+        if shape in ("connected_idle", "mid_packet", "in_callback", "during_send", "after_fault", "reset_and_send", "busy_backoff"):
             while not s.gw.links:
                 await asyncio.sleep(0.01)
             await conn                      # connect() has returned: status callback done, receive loop started
@@ -69,6 +71,9 @@ def run_case(kind, shape, k, mode, post=("connect", "send", "data", "eof"), duri
             asyncio.ensure_future(c.send(iso_request()))
         elif shape == "after_fault":
             link.eof()
+        elif shape == "busy_backoff":
+            # the gateway is out of connections: EByte gateways answer with this banner (other clients see 13 bytes of noise)
+            link.feed(b"Sorry,Limited")
         elif shape == "reset_and_send":
             # the read side and a concurrent send both notice the loss: DISCONNECTED must still be notified once
             s.gw.plan[:] = [("refuse",)] * 3 + [("accept",)]
@@ -98,7 +103,7 @@ def run_case(kind, shape, k, mode, post=("connect", "send", "data", "eof"), duri
             s.close_entered_step = loop.steps
             s.close_entered_time = loop.time()
             s.outstanding = outstanding_now()
-            if during is not None:
+            if during is not None and during[0] != "timer":
                 # something happens on the link while close() is still running (e.g. while it awaits a slow status callback)
                 s.at_step(loop.steps + during[1], inject_during)
             await c.close()
@@ -116,8 +121,16 @@ def run_case(kind, shape, k, mode, post=("connect", "send", "data", "eof"), duri
             if not started:
                 started.append(1)
                 asyncio.ensure_future(do_close())
-        s.at_step(S0 + k, start)
-        await asyncio.sleep(12.0)
+        if during is not None and during[0] == "timer":
+            # close() is called 0.1 virtual s before the during[1]-th pending timer of the loop expires (status callback: 0.3 s when slow)
+            await asyncio.sleep(0.2)
+            whens = sorted({h.when() for h in loop._scheduled if not h.cancelled() and h.when() > loop.time() + 0.11})
+            s.timer_target = whens[during[1]] if during[1] < len(whens) else None
+            if s.timer_target is not None:
+                await asyncio.sleep(s.timer_target - 0.1 - loop.time())
+        else:
+            s.at_step(S0 + k, start)
+            await asyncio.sleep(12.0)
         start()
         await closed.wait()
         # ---- post-close stimuli ----
@@ -235,6 +248,25 @@ def _during(ctx: Ctx, item):
     ctx.klass("events_during_close")
 
 
+def _timers(ctx: Ctx, item):
+    """close() called just before a pending client timer expires (reconnect back-off, busy-gateway pause, connect retry), so that the
+    timer fires while close() is still notifying; enumerated: shape x timer index x callback mode."""
+    kind, = item
+    n = 0
+    for shape in TIMER_SHAPES:
+        for j in range(4):
+            for mode in ("slow", "plain", "raise"):
+                res, s = check(ctx, kind, shape, 0, mode, during=("timer", j))
+                if getattr(s, "timer_target", None) is None:
+                    continue
+                ctx.count()
+                ctx.nontrivial_extra += 1
+                n += 1
+                for b, w, c in res:
+                    ctx.report(b + "|before-timer", w, c)
+    ctx.klass("close_just_before_a_timer", n)
+
+
 def _work(ctx: Ctx, item):
     kind, n = item
 
@@ -265,6 +297,7 @@ def run(ctx: Ctx):
                     jobs.append((kind, shape, part, modes_for(i)))
     pmap(ctx, _enumerate, jobs)
     pmap(ctx, _during, [(k,) for k in aio.CLIENT_KINDS])
+    pmap(ctx, _timers, [(k,) for k in aio.CLIENT_KINDS])
     pmap(ctx, _work, [(k, 10 if ctx.quick else 800) for k in aio.CLIENT_KINDS for _ in range(4)])
     ctx.notes["close_steps_enumerated"] = f"{len(ks)} step offsets x {len(SHAPES)} shapes x 4 clients" + ("" if ctx.quick else " x 3 callback modes (every step 0..129)")
 
@@ -272,4 +305,6 @@ def run(ctx: Ctx):
 def replay(ctx: Ctx, case):
     during = tuple(case["during"]) if case.get("during") else None
     res, _ = check(ctx, case["client"], case["shape"], case["k"], case["mode"], during)
+    if during and during[0] == "timer":
+        return [(b + "|before-timer", w, c) for b, w, c in res]
     return [(b + "|during-close", w, c) for b, w, c in res] if during else res
